@@ -1,5 +1,7 @@
 //! smlmc — bounded exhaustive exploration of sml-rs against reference models.
 pub mod dec;
+pub mod e1;
+pub mod e1c;
 pub mod e2;
 pub mod fe;
 pub mod json;
